@@ -3,6 +3,7 @@
 //!   codec.change <raw>                         Change::from_bytes → decode(): canonical text | err
 //!   codec.reencode <raw> <lib|foreign>         Change::from(change.decode()): `ok <hash> <raw'>`
 //!   codec.compressed <raw> <compressed>        from_bytes of `Change::bytes()`: same text, same hash
+//!   codec.wf <raw>                             a transaction-written change: `wf=ok rt=ok` (model: `ChangeWF`, round trip)
 //!   codec.expanded <actor> <seq> <startOp> <deps> <ops> <time> <msg> <extra>
 //!                                              Change::from(ExpandedChange): `ok <hash> <raw>`
 //!   codec.apply <raw>                          load_incremental / apply_changes on a fresh document, then
@@ -174,6 +175,22 @@ pub fn exec(toks: &[&str]) -> Vec<String> {
                         if toks.get(2) == Some(&"lib") { res.push("! C18 sig=reencode-hash decode() then re-encoding a library-written change gives a different hash".into()); }
                         else { res.push("! C18 sig=reencode-hash-foreign decode() then re-encoding an accepted foreign (non-canonical) change gives a different hash".into()); }
                     }
+                    res
+                }
+            }
+        }
+        // codec.wf <raw>: a change written by a real transaction (or by `Change::from(ExpandedChange)`, hand-built).  The claim checked against the model is the
+        // hypothesis of `C18_change_roundtrip`: every such change satisfies the model's `ChangeWF` (`wf=ok`),
+        // and `Change::from(c.decode())` writes the very same bytes with the same hash (`rt=ok`).
+        "codec.wf" => {
+            let raw = unhx(toks[1]);
+            match Change::from_bytes(raw.clone()) {
+                Err(_) => vec!["err".into()],
+                Ok(c) => {
+                    let c2 = Change::from(c.decode());
+                    let rt = c2.raw_bytes() == raw.as_slice() && c2.hash() == c.hash();
+                    let mut res = vec![format!("wf=ok rt={}", if rt { "ok" } else { "bad" })];
+                    if !rt { res.push("! C18 sig=reencode-lib-bytes decode() then re-encoding a change written by a transaction gives other bytes".into()); }
                     res
                 }
             }
@@ -859,6 +876,8 @@ pub fn generate(r: &mut Rng, _opts: &BTreeMap<String, String>, sess: &mut Sessio
         let raw = hx(c.raw_bytes());
         exec_line(sess, &format!("codec.change {}", raw), out);
         exec_line(sess, &format!("codec.reencode {} lib", raw), out);
+        exec_line(sess, &format!("codec.wf {}", raw), out);
+        out.count("wf_checked");
         let comp = c.bytes().to_vec();
         if comp != c.raw_bytes() { out.count("compressed_changes"); }
         if comp != c.raw_bytes() || r.chance(1, 6) { exec_line(sess, &format!("codec.compressed {} {}", raw, hx(&comp)), out); }
@@ -874,6 +893,8 @@ pub fn generate(r: &mut Rng, _opts: &BTreeMap<String, String>, sess: &mut Sessio
             let raw = raw.to_string();
             exec_line(sess, &format!("codec.change {}", raw), out);
             exec_line(sess, &format!("codec.reencode {} lib", raw), out);
+            exec_line(sess, &format!("codec.wf {}", raw), out);
+            out.count("wf_checked_hand_built");
             if let Ok(mut c) = Change::from_bytes(unhx(&raw)) {
                 let comp = c.bytes().to_vec();
                 if comp != c.raw_bytes() { exec_line(sess, &format!("codec.compressed {} {}", raw, hx(&comp)), out); }
@@ -919,6 +940,33 @@ pub fn generate(r: &mut Rng, _opts: &BTreeMap<String, String>, sess: &mut Sessio
             exec_line(sess, &format!("codec.reencode {} foreign", hx(&mutated)), out);
             exec_line(sess, &format!("codec.apply {}", hx(&mutated)), out);
         } else if first == "panic" { out.count("mutant_panicked"); } else { out.count("mutant_rejected"); }
+    }
+    // 4a. a large bundle whose actors interleave causally (A1 B1 C1 A2 …): more changes than any small-input
+    //     special case of the (actor, seq) bookkeeping of the bundle reader covers
+    if r.chance(1, 8) {
+        out.count("bundles_large_interleaved");
+        let nact = r.range(2, 4) as usize;
+        let actors: Vec<ActorId> = (0..nact).map(|i| ActorId::from(vec![0x40 + 0x10 * i as u8, r.next() as u8])).collect();
+        let mut d = AutoCommit::new_with_encoding(ENC).with_actor(actors[0].clone());
+        let n = r.range(21, 90) as usize;
+        for k in 0..n {
+            let i = if r.chance(1, 4) { r.below(nact as u64) as usize } else { k % nact };
+            d.set_actor(actors[i].clone());
+            let key = format!("k{}", r.below(6));
+            match r.below(4) {
+                0 => { let _ = d.put(automerge::ROOT, key, k as i64); }
+                1 => { let _ = d.put(automerge::ROOT, key, format!("v{}", k)); }
+                2 => { let _ = d.delete(automerge::ROOT, key); let _ = d.put(automerge::ROOT, "z", k as i64); }
+                _ => { if let Ok(l) = d.put_object(automerge::ROOT, key, automerge::ObjType::List) { let _ = d.insert(&l, 0, k as i64); let _ = d.insert(&l, 1, "x"); } }
+            }
+            d.commit_with(automerge::transaction::CommitOptions::default().with_time(0));
+        }
+        let cs = d.get_changes(&[]);
+        let raws: Vec<String> = cs.iter().map(|c| hx(c.raw_bytes())).collect();
+        let all: Vec<String> = (0..cs.len()).map(|i| i.to_string()).collect();
+        exec_line(sess, &format!("codec.bundle {} {}", raws.join(","), all.join(",")), out);
+        let some: Vec<String> = (0..cs.len()).filter(|_| r.chance(3, 4)).map(|i| i.to_string()).collect();
+        if !some.is_empty() { exec_line(sess, &format!("codec.bundle {} {}", raws.join(","), some.join(",")), out); }
     }
     // 4. bundles of random subsets
     let lib: Vec<&Change> = changes[..n_lib].iter().filter(|c| c.deps().iter().all(|d| changes.iter().any(|x| x.hash() == *d))).collect();
